@@ -17,11 +17,16 @@ Open Scope Z_scope.
 
 Definition cpoint_eqb (a b : cpoint) : bool :=
   match a, b with
-  | W, W | CN, CN | RO, RO | RK, RK | M0, M0 | MN, MN | MR, MR | ST, ST => true
+  | W, W | CN, CN | RO, RO | RK, RK | M0, M0 | MN, MN | MR, MR | MP, MP | ST, ST => true
   | _, _ => false
   end.
 Definition owner_eqb (a b : owner) : bool :=
   match a, b with ONone, ONone | OSame, OSame | ONew, ONew => true | _, _ => false end.
+
+Definition pread_eqb (a b : pread) : bool :=
+  match a, b with PNone, PNone | PPartial, PPartial | PDone, PDone | PLost, PLost => true | _, _ => false end.
+Lemma pread_eqb_eq a b : pread_eqb a b = true -> a = b.
+Proof. destruct a, b; simpl; congruence. Qed.
 
 Lemma cpoint_eqb_eq a b : cpoint_eqb a b = true -> a = b.
 Proof. destruct a, b; simpl; congruence. Qed.
@@ -31,15 +36,22 @@ Lemma fstate_eqb_eq a b : fstate_eqb a b = true -> a = b.
 Proof. destruct a, b; simpl; congruence. Qed.
 
 Definition sstate_eqb (a b : sstate) : bool :=
-  cpoint_eqb (cp a) (cp b) && fstate_eqb (fsm a) (fsm b) && owner_eqb (own a) (own b) && (tdc a =? tdc b)
-  && Bool.eqb (rs a) (rs b) && Bool.eqb (rq a) (rq b) && Bool.eqb (pb a) (pb b).
+  cpoint_eqb (cp a) (cp b) && fstate_eqb (fsm a) (fsm b) && owner_eqb (own a) (own b) && pread_eqb (pend a) (pend b)
+  && (tdc a =? tdc b) && Bool.eqb (rs a) (rs b) && Bool.eqb (rq a) (rq b) && Bool.eqb (pb a) (pb b) && Bool.eqb (ho a) (ho b).
 
 Lemma sstate_eqb_eq a b : sstate_eqb a b = true -> a = b.
 Proof.
   destruct a, b; unfold sstate_eqb; simpl; intro H.
   repeat (apply andb_prop in H; let H' := fresh "E" in destruct H as [H H']).
-  apply cpoint_eqb_eq in H. apply fstate_eqb_eq in E4. apply owner_eqb_eq in E3. apply Z.eqb_eq in E2.
-  apply Bool.eqb_prop in E1. apply Bool.eqb_prop in E0. apply Bool.eqb_prop in E. congruence.
+  apply cpoint_eqb_eq in H.
+  repeat match goal with
+  | X : fstate_eqb _ _ = true |- _ => apply fstate_eqb_eq in X
+  | X : owner_eqb _ _ = true |- _ => apply owner_eqb_eq in X
+  | X : pread_eqb _ _ = true |- _ => apply pread_eqb_eq in X
+  | X : (_ =? _) = true |- _ => apply Z.eqb_eq in X
+  | X : Bool.eqb _ _ = true |- _ => apply Bool.eqb_prop in X
+  end.
+  congruence.
 Qed.
 
 Definition mon_eqb (a b : mon) : bool :=
@@ -67,16 +79,17 @@ Qed.
 
 (* a hash of the product state (any function would do: equal states have equal hashes) *)
 Definition b2z (b : bool) : Z := if b then 1 else 0.
-Definition cp_z (c : cpoint) : Z := match c with W => 0 | CN => 1 | RO => 2 | RK => 3 | M0 => 4 | MN => 5 | MR => 6 | ST => 7 end.
+Definition cp_z (c : cpoint) : Z := match c with W => 0 | CN => 1 | RO => 2 | RK => 3 | M0 => 4 | MN => 5 | MR => 6 | ST => 7 | MP => 8 end.
+Definition pend_z (p : pread) : Z := match p with PNone => 0 | PPartial => 1 | PDone => 2 | PLost => 3 end.
 Definition fs_z (a : fstate) : Z :=
   match a with Idle => 0 | Active => 1 | Connect => 2 | OpenSent => 3 | OpenConfirm => 4 | Established => 5 end.
 Definition own_z (o : owner) : Z := match o with ONone => 0 | OSame => 1 | ONew => 2 end.
 Definition hash (p : pstate) : positive :=
   let s := fst p in let m := snd p in
-  Z.to_pos (1 + cp_z (cp s) + 8 * (fs_z (fsm s) + 6 * (own_z (own s) + 3 * (b2z (rs s) + 2 * (b2z (rq s) + 2 * (b2z (pb s)
+  Z.to_pos (1 + cp_z (cp s) + 9 * (pend_z (pend s) + 4 * (b2z (ho s)) + 8 * (fs_z (fsm s) + 6 * (own_z (own s) + 3 * (b2z (rs s) + 2 * (b2z (rq s) + 2 * (b2z (pb s)
     + 2 * (fs_z (m_fsm m) + 6 * (b2z (m_topen m) + 2 * (b2z (m_osent m) + 2 * (b2z (m_orcvd m) + 2 * (b2z (m_krcvd m)
     + 2 * (b2z (m_up m) + 2 * (b2z (m_notified m) + 2 * (b2z (m_td m) + 2 * (b2z (m_pb m) + 2 * (b2z (m_mustclose m)
-    + 2 * Z.abs (tdc s))))))))))))))))).
+    + 2 * Z.abs (tdc s)))))))))))))))))).
 
 (* ------------------------------------------------------------------------------------------------ *)
 (* sets of product states as hash buckets *)
@@ -265,7 +278,7 @@ Qed.
 
 Definition reads_own (s : sstate) : bool :=
   match cp s with
-  | RO | RK | M0 | MN | MR => match own s with ONew => false | _ => true end
+  | RO | RK | M0 | MN | MR | MP => match own s with ONew => false | _ => true end
   | CN => match own s with ONone => true | _ => false end
   | _ => true
   end.
@@ -286,6 +299,52 @@ Proof.
   pose proof reads_own_b as C. rewrite forallb_forall in C. exact (C _ (InR_Rl _ Hm)).
 Qed.
 
+(* ------------------------------------------------------------------------------------------------ *)
+(* the read in progress: kept until the message is complete or the transport is closed; nothing of it
+   outlives the transport *)
+
+Definition is_close (a : action) : bool := match a with CloseTransport => true | _ => false end.
+Definition is_connected_act (a : action) : bool := match a with ApiConnected => true | _ => false end.
+Definition is_recv (e : event) : bool := match e with Recv _ => true | _ => false end.
+Definition is_partial (s : sstate) : bool := match pend s with PPartial => true | _ => false end.
+Definition nothing_kept (s : sstate) : bool := match pend s with PNone | PLost => true | _ => false end.
+
+(* a partly received message stays pending through every event that neither completes it nor closes the transport *)
+Definition survives_b (s : sstate) (e : event) : bool :=
+  negb (is_partial s)
+  || (let x := session_step s e in existsb is_close (snd x) || is_recv e || is_partial (fst x)).
+Lemma survives_all_b : forallb (fun p => forallb (survives_b (fst p)) alphabet) Rl = true.
+Proof. vm_compute. reflexivity. Qed.
+
+(* whatever was read or pending belongs to the transport the session owns; a step that closes the
+   transport, or takes a new one, leaves nothing of it *)
+Definition no_leak_state (s : sstate) : bool := match pend s with PNone => true | _ => is_same s end.
+Definition no_leak_step (s : sstate) (e : event) : bool :=
+  let x := session_step s e in
+  negb (existsb is_close (snd x) || existsb is_connected_act (snd x)) || nothing_kept (fst x).
+Lemma no_leak_b :
+  forallb (fun p => no_leak_state (fst p) && forallb (no_leak_step (fst p)) alphabet) Rl = true.
+Proof. vm_compute. reflexivity. Qed.
+
+Lemma final_state_in_Rl es : over_alphabet es -> exists m, In (final init es, m) Rl.
+Proof. intro H. destruct (final_in_R es H p0 init_in) as [m Hm]. exists m. apply InR_Rl. exact Hm. Qed.
+
+Theorem pending_read_survives es e : over_alphabet es -> In e alphabet -> survives_b (final init es) e = true.
+Proof.
+  intros H He. destruct (final_state_in_Rl es H) as [m Hm].
+  pose proof survives_all_b as C. rewrite forallb_forall in C. specialize (C _ Hm). cbn [fst] in C.
+  rewrite forallb_forall in C. exact (C e He).
+Qed.
+
+Theorem no_cross_session_leak es e : over_alphabet es -> In e alphabet ->
+  no_leak_state (final init es) = true /\ no_leak_step (final init es) e = true.
+Proof.
+  intros H He. destruct (final_state_in_Rl es H) as [m Hm].
+  pose proof no_leak_b as C. rewrite forallb_forall in C. specialize (C _ Hm). cbn [fst] in C.
+  apply andb_prop in C. destruct C as [C1 C2]. split; [exact C1|].
+  rewrite forallb_forall in C2. exact (C2 e He).
+Qed.
+
 (* size of the reachable product (for the evidence) *)
 Definition reach_size : nat := Eval vm_compute in length Rl.
 Definition reach_frontier_left : nat := Eval vm_compute in length (snd reach).
@@ -303,7 +362,8 @@ Definition rkind_eqb (a b : rkind) : bool :=
 Definition event_eqb (a b : event) : bool :=
   match a, b with
   | Tick, Tick | ConnectOk, ConnectOk | ConnectFail, ConnectFail | Eof, Eof | SockErr, SockErr
-  | HoldExpire, HoldExpire | OpenWaitExpire, OpenWaitExpire | ApiRefresh, ApiRefresh | ProcessBroken, ProcessBroken => true
+  | HoldExpire, HoldExpire | OpenWaitExpire, OpenWaitExpire | ApiRefresh, ApiRefresh | ProcessBroken, ProcessBroken
+  | RecvPart, RecvPart | Handover, Handover | LoopPause, LoopPause | LoopExit, LoopExit => true
   | Incoming x, Incoming y => Bool.eqb x y
   | Recv x, Recv y => rkind_eqb x y
   | Teardown x, Teardown y => x =? y
